@@ -55,7 +55,7 @@ ASSUMPTIONS = [
 N_TABLE = len(P.TABLE)
 BOUNDS = {
     "quick": dict(rounds=3, grammar=200, history=300, shards=8),
-    "thorough": dict(rounds=24, grammar=4000, history=6000, shards=16),
+    "thorough": dict(rounds=24, grammar=16000, history=24000, shards=16),
 }
 HISTORY_SOURCES = ["grammar", "prob", "htn", "cont", "sched", "ma"]
 
